@@ -55,7 +55,7 @@ type PlanFile struct {
 // action -> yield point the thread must be parked at
 var FromPoint = map[string]string{
 	"SLookup": "send.lookup", "SAlive": "send.alive", "SPush": "mpsc.push", "SLink": "mpsc.link", "SWake": "run.wake",
-	"RBegin": "run.begin", "RPick": "actor.pick", "RCb": "cb", "RSleep": "run.sleep", "RRecheck": "run.recheck",
+	"RBegin": "run.begin", "RPick": "actor.pick", "RCb": "cb", "RCbCall": "cb", "RWaitEnter": "wait.enter", "RWaitLeave": "wait.leave", "RSleep": "run.sleep", "RRecheck": "run.recheck",
 	"RReacquire": "run.reacquire", "RTerm": "run.term|run.zombie", "RUnreg": "unreg.delete", "RTermCb": "term",
 	"KStart": "start", "KSkip": "start", "KLookup": "kill.lookup", "KZombie": "kill.zombie", "KRestore": "kill.restore",
 	"KTerm": "kill.term", "KUnreg": "unreg.delete", "TBegin": "kill.tbegin", "TTermCb": "term",
@@ -63,7 +63,7 @@ var FromPoint = map[string]string{
 
 var ActivePoints = []string{
 	"send.lookup", "send.alive", "mpsc.push", "mpsc.link", "run.wake",
-	"run.begin", "actor.pick", "cb", "run.sleep", "run.recheck", "run.reacquire", "run.term", "run.zombie", "run.panic",
+	"run.begin", "actor.pick", "cb", "wait.enter", "wait.leave", "run.sleep", "run.recheck", "run.reacquire", "run.term", "run.zombie", "run.panic",
 	"unreg.delete", "term",
 	"kill.lookup", "kill.zombie", "kill.restore", "kill.term", "kill.tbegin",
 }
@@ -78,14 +78,15 @@ type Msg struct {
 // ---- the process under test ----
 
 type world struct {
-	ctl   *vsched.Ctl
-	mu    sync.Mutex
-	proc  gen.Process // the watched process
-	pid   gen.PID
-	mbox  gen.ProcessMailbox
-	incb  int32 // callbacks currently executing (scheduler independent overlap witness)
-	maxcb int32
-	trap  bool
+	ctl    *vsched.Ctl
+	mu     sync.Mutex
+	proc   gen.Process // the watched process
+	pid    gen.PID
+	mbox   gen.ProcessMailbox
+	incb   int32 // callbacks currently executing (scheduler independent overlap witness)
+	maxcb  int32
+	trap   bool
+	helper gen.PID // answers the synchronous requests of "call" handlers
 	// free-running mode: callbacks append to this log instead of yielding to the controller
 	free bool
 	fmu  sync.Mutex
@@ -198,6 +199,11 @@ func (g *gactor) HandleMessage(from gen.PID, message any) (rr error) {
 	}
 	w.report("msg", m.ID, "", g.Process)
 	switch m.Kind {
+	case "call":
+		// a synchronous request to a helper that answers at once: the process passes through the wait state
+		if w.helper != (gen.PID{}) {
+			g.CallWithTimeout(w.helper, "ping", 2)
+		}
 	case "err":
 		return errors.New("E:" + m.ID)
 	case "panic":
@@ -271,6 +277,7 @@ type Runner struct {
 	Plans, Steps, Drift, Stalls, Skipped int
 	MaxOverlap                           int
 	Debug                                bool
+	helper                               gen.PID
 }
 
 func StartNode(name string) (gen.Node, error) {
@@ -398,6 +405,7 @@ func (r *Runner) RunPlan(scn *Scenario, plan *Plan) error {
 	r.Ctl.Install()
 	defer r.Ctl.Uninstall()
 
+	w.helper = r.helperPid()
 	opts := gen.ProcessOptions{MailboxSize: scn.Limit}
 	pid, err := r.Node.Spawn(factory, opts, w)
 	if err != nil {
@@ -615,10 +623,28 @@ func LoadPlans(path string) (*PlanFile, error) {
 	return &pf, nil
 }
 
+type helperActor struct {
+	act.Actor
+}
+
+func (h *helperActor) HandleCall(from gen.PID, ref gen.Ref, request any) (any, error) {
+	return "pong", nil
+}
+
+func (r *Runner) helperPid() gen.PID {
+	if r.helper == (gen.PID{}) {
+		p, err := r.Node.Spawn(func() gen.ProcessBehavior { return &helperActor{} }, gen.ProcessOptions{})
+		if err == nil {
+			r.helper = p
+		}
+	}
+	return r.helper
+}
+
 // RunFree executes a scenario without the controller: real goroutines, real parallelism.
 // Lines are ordered by a counter taken under the recorder's lock at the observation point.
 func (r *Runner) RunFree(scn *Scenario, id int, killAfter time.Duration, hold time.Duration) error {
-	w := &world{ctl: r.Ctl, trap: scn.Trap, free: true, hold: hold}
+	w := &world{ctl: r.Ctl, trap: scn.Trap, free: true, hold: hold, helper: r.helperPid()}
 	opts := gen.ProcessOptions{MailboxSize: scn.Limit}
 	pid, err := r.Node.Spawn(factory, opts, w)
 	if err != nil {
